@@ -32,7 +32,7 @@
    the set of keys of [options] that carry a subproject (add_project_option and remove
    are its only writers and keep exactly that relation).
 
-   Four behaviours are modelled AS REPAIRED by pending/C08-*.diff (see those files):
+   Five behaviours are modelled AS REPAIRED by pending/C08-*.diff (see those files):
      (yield-links)  update_project_options keeps the parent link / yielding flag of an
         option object that is replaced because its choices changed, and unlinks the
         children of a removed top-level option; so the parent of a yielding option is
@@ -43,9 +43,12 @@
         tested bool(parent), the VALUE of a boolean parent).
      (unyield-dirty) set_option reports a change when an option stops yielding or an
         override is created, so that `meson configure` saves it.
+     (removed-option-recorded) a reconfigure judges only the options given now with
+        check_unused_options (a recorded -D whose option was removed from the option file no
+        longer makes every reconfigure fail), and `meson configure -U` of such a key drops
+        the record.
    Two behaviours are modelled AS THEY ARE (known findings):
-     a recorded -D whose option was removed from the option file makes every later
-        reconfigure fail (check_unused_options);
+     cmd_line.txt does not preserve blanks at the ends of a recorded value;
      a failure after cmd_line.txt / the intro files were written (postconf script) rolls
         back coredata.dat only. *)
 From MV Require Import Base.Strs Options.Kinds.
@@ -439,9 +442,14 @@ Definition empty_dir : bdir := mkB None None None.
 Definition cl_or_empty (b : bdir) : sdict := match cl b with Some l => l | None => [] end.
 
 (* update_cmd_line_file  (cmdline.py:96-113) *)
+(* cmd_line.txt is an INI file: configparser strips blanks at both ends of a value when the
+   file is read back (known finding: such a value is not recorded faithfully).  The model keeps
+   the [options] section as it reads back, so values are stripped when they are written. *)
+Definition strip_vals (d : sdict) : sdict := map (fun kv => (fst kv, strip (snd kv))) d.
+
 Definition update_cmd_line (l : sdict) (args : list (key * option str)) : sdict :=
   fold_left (fun a kv => match snd kv with
-                         | Some v => dset a (fst kv) v
+                         | Some v => dset a (fst kv) (strip v)
                          | None => dpop a (fst kv)
                          end) args l.
 
@@ -456,8 +464,8 @@ Definition first_configure (pj : projcfg) (fs : files) (b : bdir) (d : sdict) : 
   | Err _ => (b, Failed)
   | Ok (c, late) =>
       if negb (check_unused (cstore c) udo) then (b, Failed)   (* coredata.dat unlinked *)
-      else if late then (mkB None (Some udo) (Some (cstore c)), Failed)
-      else (mkB (Some c) (Some udo) (Some (cstore c)), Done)
+      else if late then (mkB None (Some (strip_vals udo)) (Some (cstore c)), Failed)
+      else (mkB (Some c) (Some (strip_vals udo)) (Some (cstore c)), Done)
   end.
 
 (* mconf.Conf.__init__ : reload an option file whose hash changed *)
@@ -467,6 +475,16 @@ Definition reload_changed (c : cdata) (fs : files) : res cdata :=
   do s2 <- (if list_eqb_decl (fsub (seen c)) (fsub fs) then Ok s1
             else update_project_options s1 (fsub fs) SUB);
   Ok (mkCd s2 fs).
+
+(* repaired (pending/C08-removed-option-recorded.diff): -U of a key that is neither an override nor
+   an option any more, but is still recorded in cmd_line.txt, only drops the record *)
+Definition stale_drop (s : store) (rec : sdict) (a : key * option str) : bool :=
+  match snd a with
+  | None => negb (dmem (augments s) (fst a)) && negb (dmem (options s) (fst a)) && dmem rec (fst a)
+  | Some _ => false
+  end.
+Definition live_args (s : store) (rec : sdict) (args : list (key * option str)) : list (key * option str) :=
+  filter (fun a => negb (stale_drop s rec a)) args.
 
 (* mconf.run_impl  (mconf.py:372-403) *)
 Definition configure (fs : files) (b : bdir) (args : list (key * option str)) : bdir * outcome :=
@@ -479,7 +497,7 @@ Definition configure (fs : files) (b : bdir) (args : list (key * option str)) : 
           match args with
           | [] => (b, Done)                                  (* print only *)
           | _ =>
-              match set_from_configure_command (cstore c1) args false with
+              match set_from_configure_command (cstore c1) (live_args (cstore c1) (cl_or_empty b) args) false with
               | Err _ => (b, Failed)
               | Ok (s2, dirty) =>
                   let cl' := Some (update_cmd_line (cl_or_empty b) args) in
@@ -502,7 +520,8 @@ Definition reconfigure (pj : projcfg) (fs : files) (b : bdir) (d : sdict) : bdir
           match run_build pj fs false s1 udo with
           | Err _ => (b, Failed)
           | Ok (c2, late) =>
-              if negb (check_unused (cstore c2) udo) then (b, Failed)   (* coredata.dat.prev restored *)
+              (* repaired: on a reconfigure only the options given now are judged *)
+              if negb (check_unused (cstore c2) d) then (b, Failed)     (* coredata.dat.prev restored *)
               else
                 let cl' := Some (update_cmd_line (cl_or_empty b) (some_vals d)) in
                 if late then (mkB (cd b) cl' (Some (cstore c2)), Failed)
